@@ -291,3 +291,33 @@ def _ancestors(fn, node):
         cur = par[id(cur)]
         out.append(cur)
     return out
+
+
+def kernel_shapes(ctx, P, rule="STATS-KERNEL"):
+    ctx.rule(rule, "two narrow shape facts of the statistic kernels (written after seeded changes, stated as such): (a) in every walk "
+                   "whose loop condition reads `visited[...]`, the marks `visited[...] = true/false` are unconditional statements of "
+                   "the loop body (the reset walk retraces exactly the marked path); (b) get_all_samples_bits selects the last word "
+                   "with a conditional on the remainder (`n % bits ? ~(all << r) : all`), because `~(all << 0)` would be 0")
+    tu = P.tus["trees"]
+    n = 0
+    for fn in tu.funcs.values():
+        for w in walk(fn.body):
+            if w.k != "WhileStmt" or w.kids[-1] is None or w.kids[-1].k != "CompoundStmt":
+                continue
+            if "visited[" not in estr(w.kids[0]):
+                continue
+            body = w.kids[-1]
+            marks = [x for x in walk(body) if is_assign(x) and estr(x.kids[0]).startswith("visited[")]
+            top = [x for x in body.kids if x is not None and is_assign(x) and estr(x.kids[0]).startswith("visited[")]
+            n += 1
+            ctx.ob(rule, "%s|visited@%d" % (fn.name, n), bool(marks) and len(marks) == len(top), tu.loc(w),
+                   "%d mark(s), all unconditional in the walk body" % len(marks) if len(marks) == len(top) else
+                   "a `visited[...]` mark is conditional: nodes stay marked / unmarked and later windows are truncated wrongly")
+    ctx.ob(rule, "visited-walks", n >= 2, tu.path, "%d walks over visited[] analysed" % n)
+    fn = P.need("get_all_samples_bits", "trees")
+    last = [x for x in walk(fn.body) if is_assign(x) and "size - 1" in estr(x.kids[0])]
+    ok = False
+    if last:
+        r = strip(last[0].kids[1])
+        ok = r is not None and r.k == "ConditionalOperator" and "remainder" in estr(r.kids[0]) and "<<" in estr(r.kids[1]) and estr(r.kids[2]) == "all"
+    ctx.ob(rule, "get_all_samples_bits|tail", ok, tu.loc(fn.node), "last word = remainder ? ~(all << remainder) : all")
